@@ -186,6 +186,9 @@ def run(tier, seed):
         for _ in range(rng.randint(3, 7)):
             sp, c = rng.choice(kcs)
             rec = members[rng.choice([sp["name"], rng.choice(kcs)[0]["name"]])]
+            if rng.random() < 0.3:          # a record the class refuses because of an extra recognition site
+                pos = rng.randrange(len(rec))
+                rec = rec[:pos] + c.cutter.site + rec[pos:]
             h.append((sp, gen.rotate(rec, rng.randrange(len(rec)))))
         histories.append(h)
     # the same letters typed as a linear and as a circular record by the same class, in both orders, with the
